@@ -1,7 +1,7 @@
 (* C09 — pag_to_mag returns a member of the class the PAG represents.  Statements: C09/Spec.v; model: C09/Model.v;
    spec oracles (valid MAG, Markov equivalence by msep_dec, PAG of a MAG from the definition): C09/Oracle.v. *)
 From Coq Require Import List Arith Bool.
-From PG Require Import Base.ListSet Graph.MGraph C08.Model C09.Model C09.Oracle C09.Spec C09.Proofs C09.Bounded_n3 C09.Bounded_n4 C09.Bounded C09.Refuted.
+From PG Require Import Base.ListSet Graph.MGraph C08.Model C09.Model C09.Oracle C09.Spec C09.Proofs C09.Bounded_n3 C09.Bounded_n4 C09.Bounded C09.Refuted C09.Cover C09.Ext.
 Import ListNotations.
 
 (* unbounded, every mark graph: nodes, adjacencies, arrowheads and tails kept, circles resolved, no circle left *)
@@ -41,3 +41,17 @@ Theorem p2m_structure_code_refuted :
   (exists g a b, wfb g = true /\ adjacent g a b = true /\ adjacent (pag_to_mag_code g) a b = false).
 Proof. exact p2m_structure_code_refuted_proof. Qed.
 Print Assumptions p2m_structure_code_refuted.
+
+(* coverage of the enumeration: EVERY valid MAG on the nodes 0..n-1 (any order / duplication of its edge lists) has a member
+   of all_mags n with the same nodes and the same directed / bidirected edge relations *)
+Theorem all_mags_covers_every_mag : forall n m, V m = nodes n -> valid_mag_spec m = true ->
+  exists c, In c (all_mags n) /\ V c = V m /\
+            (forall a b, has_d c a b = has_d m a b) /\ (forall a b, has_b c a b = has_b m a b).
+Proof. exact all_mags_cover. Qed.
+Print Assumptions all_mags_covers_every_mag.
+
+(* the bounded membership theorem over EVERY valid MAG on 0..n-1, n <= 4 (the oracles and the check are proved to depend on a
+   graph only through its node list and edge relations, C09/Ext.v) *)
+Theorem p2m_member_bounded_4_all : forall n m, n <= 4 -> V m = nodes n -> valid_mag_spec m = true -> member_check m = true.
+Proof. exact p2m_member_all_mags_4. Qed.
+Print Assumptions p2m_member_bounded_4_all.
